@@ -35,6 +35,8 @@ SEQ_LENGTHS = (1, 2, 3)
 REL_TOL = 1e-6
 EXEC_TIMEOUT_S = int(os.environ.get("VERIF_C02_EXEC_TIMEOUT", "60"))
 SMT_TIMEOUT_S = float(os.environ.get("VERIF_SMT_TIMEOUT", "20"))
+NF_TIMEOUT_S = int(os.environ.get("VERIF_C02_NF_TIMEOUT", "15"))
+WORKER_MEM_GB = float(os.environ.get("VERIF_C02_MEM_GB", "6"))
 
 # functions documented (by their code/docstring) to return a magnitude / a rounded-up integer of the solution.
 # Explicit list: a function that starts using abs()/ceiling() without being listed is held to the plain law.
@@ -420,8 +422,8 @@ class PathLimit(Exception):
     pass
 
 
-class _Timeout(Exception):
-    pass
+class _Timeout(BaseException):
+    """BaseException: `except Exception` clauses inside SymPy / the functions under contract must not swallow it."""
 
 
 @contextmanager
@@ -628,12 +630,15 @@ def prove_zero(name, goals, *, assume=(), domain_exprs=(), signature="", abs_alt
     alts = [list(goals)] + ([list(abs_alt)] if abs_alt is not None else [])
     # ---- nf: identically zero wherever defined
     try:
-        for alt in alts:
-            if all(nf_is_zero(g) is True for g in alt):
-                return Ob(name, PROVED, "nf", (time.time() - t0) * 1000, "", signature), None, None, []
+        with time_limit(NF_TIMEOUT_S):
+            for alt in alts:
+                if all(nf_is_zero(g) is True for g in alt):
+                    return Ob(name, PROVED, "nf", (time.time() - t0) * 1000, "", signature), None, None, []
     except Unsupported:
         pass
-    except Exception:
+    except MemoryError:
+        pass
+    except Exception:  # noqa: BLE001 - includes the time limit: nf is only a fast path
         pass
     ms_nf = (time.time() - t0) * 1000
     tr = Tr()
@@ -1263,3 +1268,83 @@ def _process_function(mod, fname, fr: FnResult, rng, npoints, demoted, generate)
     else:
         vs = {o.verdict for o in fr.obs}
         fr.klass = "refuted" if REFUTED in vs else "undecided" if UNKNOWN in vs else "fault" if FAULT in vs else "proved"
+
+
+# ===================================================================================== crash-isolating pool
+def _pool_worker(inq, outq, mem_gb):
+    import resource
+    try:
+        lim = int(mem_gb * (1 << 30))
+        resource.setrlimit(resource.RLIMIT_AS, (lim, lim))
+    except Exception:  # noqa: BLE001
+        pass
+    while True:
+        item = inq.get()
+        if item is None:
+            return
+        idx, task = item
+        outq.put(("start", idx, os.getpid()))
+        try:
+            res = process_module(task)
+        except BaseException as e:  # noqa: BLE001
+            res = {"modname": task[0], "path": task[1], "functions": [], "import_error": "",
+                   "crash": f"{type(e).__name__}: {e}", "secs": 0.0}
+        outq.put(("done", idx, res))
+
+
+def run_pool(tasks, jobs: int, progress_file: Optional[str] = None):
+    """Process tasks in `jobs` worker processes; a worker that dies loses only the module it was on (reported)."""
+    import multiprocessing as mp
+    import queue as pyqueue
+    ctx = mp.get_context("fork")
+    inq, outq = ctx.Queue(), ctx.Queue()
+    for i, t in enumerate(tasks):
+        inq.put((i, t))
+    workers = {}
+
+    def spawn():
+        p = ctx.Process(target=_pool_worker, args=(inq, outq, WORKER_MEM_GB), daemon=True)
+        p.start()
+        workers[p.pid] = p
+
+    for _ in range(min(jobs, len(tasks))):
+        spawn()
+    results = {}
+    inflight = {}  # pid -> idx
+    log = open(progress_file, "w") if progress_file else None
+    while len(results) < len(tasks):
+        try:
+            kind, idx, payload = outq.get(timeout=2.0)
+            if kind == "start":
+                inflight[payload] = idx
+                if log:
+                    log.write(f"start {tasks[idx][0]} pid={payload}\n"); log.flush()
+            else:
+                results[idx] = payload
+                for pid, i in list(inflight.items()):
+                    if i == idx:
+                        del inflight[pid]
+                if log:
+                    log.write(f"done {tasks[idx][0]} {payload.get('secs', 0):.1f}s\n"); log.flush()
+            continue
+        except pyqueue.Empty:
+            pass
+        for pid, p in list(workers.items()):
+            if not p.is_alive():
+                del workers[pid]
+                idx = inflight.pop(pid, None)
+                if idx is not None and idx not in results:
+                    results[idx] = {"modname": tasks[idx][0], "path": tasks[idx][1], "functions": [], "import_error": "",
+                                    "crash": f"worker process died (exit code {p.exitcode}) while on this module",
+                                    "secs": 0.0}
+                if len(results) < len(tasks):
+                    spawn()
+    for _ in workers:
+        inq.put(None)
+    for p in workers.values():
+        p.join(timeout=5)
+        if p.is_alive():
+            p.terminate()
+    if log:
+        log.close()
+    return [results[i] for i in range(len(tasks))]
